@@ -124,6 +124,26 @@ def popOf (asn : Assertion) (data : Option (List Rat)) (r1 r2 : Option Rat) : Op
     | some m => (match assumedPopulation asn m r1 r2 with | .ok x => some x | .error _ => none)
     | none => none
 
+/-- the style tail of `Audit.find_sample_size`: `"style": {"ids": [contest ids, dict order], "cards": [con.cards],
+"cvrs": [{"contests": [ids on the card], "sampled": bool, "phantom": bool}]}` (absent without style information).
+Returns the fields to add to the reply and, if `math.ceil` raises, the exception -/
+def styleTail (a : Json) (sizes : List Nat) : R (List (String × Json) × Option SS.Err) := do
+  match fld? a "style" with
+  | none => pure ([], none)
+  | some Json.null => pure ([], none)
+  | some st =>
+    let ids ← strsF st "ids"
+    let ncards ← (← arrF st "cards").mapM asInt
+    let cvrs ← (← arrF st "cvrs").mapM (fun c => do
+      pure ({ contests := ← strsF c "contests", sampled := ← boolF c "sampled", phantom := ← boolF c "phantom" } : Card))
+    let contests : List SContest := (ids.zip (sizes.zip ncards)).map fun (i, s, n) => { id := i, size := s, cards := n }
+    let ps := cvrs.map (cardP cvrs contests)
+    let olds := contests.map (fun c => oldSize true none cvrs c.id)
+    let base := [("p", jArr (ps.map jXR)), ("sum", jXR (sumP cvrs contests)), ("old", jNats olds)]
+    match auditTotalStyle cvrs contests with
+    | .ok t => pure (base ++ [("total", jInt t)], none)
+    | .error e => pure (base, some e)
+
 def handle (op : String) (a : Json) : R Json := do
   let tol := (← optRat a "tol").getD (1 / 1000000000)
   -- `exact_ok = false`: the harness knows that the float population is not exactly the model's (its values come
@@ -192,7 +212,11 @@ def handle (op : String) (a : Json) : R Json := do
         | none => false
       let f := if op = "contest" then contestFindSampleSize else auditContestNewSize
       match f sqrtRat ctype hasMvr items r1 r2 q with
-      | .ok n => pure (jOk [("n", jNat n), ("each", jArr each), ("near", Json.bool near)])
+      | .ok n =>
+          let (extra, terr) ← styleTail a [n]
+          match terr with
+          | none => pure (jOk ([("n", jNat n), ("each", jArr each), ("near", Json.bool near)] ++ extra))
+          | some e => pure (Json.mkObj ([("st", Json.str "err"), ("err", Json.str e.toStr), ("n", jNat n), ("where", Json.str "total")] ++ extra))
       | .error e => pure (errJ e)
   | "audit" =>
       -- Audit.find_sample_size over several contests: {"has_mvr", "contests": [{"audit_type", "items": [..]}], rates, quantile}
@@ -227,7 +251,11 @@ def handle (op : String) (a : Json) : R Json := do
       match auditFindSampleSizes sqrtRat hasMvr contests r1 r2 q with
       | .ok sizes =>
           let total : Json := match auditTotalNoStyle sizes with | .ok t => jNat t | .error e => Json.str e.toStr
-          pure (jOk [("sizes", jNats sizes), ("total_nostyle", total), ("near", Json.bool near)])
+          let (extra, terr) ← styleTail a sizes
+          match terr with
+          | none => pure (jOk ([("sizes", jNats sizes), ("total_nostyle", total), ("near", Json.bool near)] ++ extra))
+          | some e => pure (Json.mkObj ([("st", Json.str "err"), ("err", Json.str e.toStr), ("sizes", jNats sizes),
+                                         ("where", Json.str "total")] ++ extra))
       | .error e => pure (Json.mkObj [("st", Json.str "err"), ("err", Json.str e.toStr), ("each", jArr each)])
   | "raire" =>
       let mean ← ratF a "mean"
